@@ -463,6 +463,28 @@ pub fn scenarios_c17(tier: Tier) -> Vec<QScenario> {
             }
         }
     }
+    // several unblock tokens (and possibly an element behind them) already queued when
+    // non-blocking and blocking receivers arrive: each token must release exactly one call
+    for cs in [
+        vec![vec![Call::TryPop]],
+        vec![vec![Call::TryPop, Call::Pop]],
+        vec![vec![Call::TryPop, Call::TryPop, Call::TryPop]],
+        vec![vec![Call::TryPop], vec![Call::Pop]],
+        vec![vec![Call::TryPop], vec![Call::PopTimeout]],
+        vec![vec![Call::PopTimeout, Call::TryPop]],
+        vec![vec![Call::Pop], vec![Call::Pop], vec![Call::TryPop]],
+    ] {
+        for u in 2..=3usize {
+            for items in [0usize, 1] {
+                v.push(QScenario {
+                    consumers: cs.clone(),
+                    producers: if items == 0 { vec![] } else { vec![(Delay::None, 1)] },
+                    unblocks: vec![Delay::None; u],
+                    consumers_first: false,
+                });
+            }
+        }
+    }
     // mixes of the receive calls, with and without elements, unblock before / while / after
     let progs = programs(if tier == Tier::Thorough { 2 } else { 1 });
     let mut consumer_sets: Vec<Vec<Vec<Call>>> = Vec::new();
